@@ -7,6 +7,9 @@ Property theorems about M-Notify (`DefconModel/Notify.lean`, the executable mode
 quantify over `rec`/`fuel`/scripts hold for every re-entrant behaviour.
 -/
 import DefconModel.Lemmas.Notify
+import DefconModel.Lemmas.NotifyGlob
+import DefconModel.Lemmas.NotifyOnce
+import DefconModel.Lemmas.NotifyBound
 
 namespace DefconModel.Props.C04
 open DefconModel DefconModel.Notify
@@ -182,8 +185,7 @@ theorem release_nests (rec : Center → Op → Center × List Ev) (c : Center) (
 theorem release_last (rec : Center → Op → Center × List Ev) (c : Center) (hk : HKey) (hd : Hold)
     (hg : AL.get? c.holds hk = some hd) (hc : hd.count = 1) :
     release rec c hk =
-      let r := runAll (fun c (q : Note) => post rec c q.name q.sender q.data q.target)
-                 { c with holds := AL.erase c.holds hk } hd.queue
+      let r := runAll (repost rec) { c with holds := AL.erase c.holds hk } hd.queue
       (r.1, r.2 ++ [.ret .ok]) := by
   unfold release
   simp [hg, hc]
@@ -327,7 +329,7 @@ theorem find_exact (c : Center) (o : Option Obj) (n : Option Name) (s : Option O
     f ∈ findObs c o n s pat ↔
       ∃ kr ∈ c.registry, ∃ r ∈ kr.2,
         keyOk n s kr.1 = true ∧ identOk pat r.ident = true ∧ obsOk o r.observer = true ∧
-        f = ⟨if r.observer ∈ c.dead then none else some r.observer, kr.1.2, kr.1.1, r.ident⟩ := by
+        f = ⟨liveRef c r.observer, liveRef? c kr.1.2, kr.1.1, r.ident⟩ := by
   unfold findObs
   simp only [List.mem_flatMap]
   constructor
@@ -372,6 +374,301 @@ theorem identOk_iff (pat ident : Option String) :
     | none => simp [identOk]
     | some i => simp [identOk]
 
+
+/-! ## 8. Overlapping holds of different widths: pending copies for ONE observer -/
+
+/-- The end-to-end statement.  Take any history of posts, holds and releases - any of the eight
+scopes, requested any number of times, opened and closed in any order, properly nested or
+overlapping - on a centre whose callbacks issue no operations and in which nothing is disabled.
+If `(n, s, d)` is posted exactly once in it (other notifications as often as one likes) and no
+hold is left at the end, then every observer `o` has received `(n, s, d)` exactly once per
+matching registration - in registration order from the least to the most specific key, never
+twice, never zero times, nothing if it has died: the log filtered to `o` and `(n, s, d)` IS the
+list `due`.  (Why "exactly once": through every step the notification is, for `o`, either pending
+in exactly one queue entry - unrestricted, or restricted to `o` - or delivered in full; a narrow
+hold that ends re-posts its entry into whatever wider hold is still active, and the entry keeps
+its addressee.)  `pend c n s d o = 0` says no copy is pending at the start, e.g. no holds. -/
+theorem overlapping_holds_deliver_once (fuel : Nat) (c : Center) (ops : List Op) (n : Name) (s : Obj) (d : Data)
+    (o : Obj) (hs : c.scripts = []) (hd : c.disabled = []) (hq : pend c n s d o = 0) (hsl : s ∉ c.dead)
+    (hops : ∀ op ∈ ops, isHoldOrPost op = true) (hone : postsOf n s d ops = 1)
+    (hfin : (run (fuel + 1) c ops).1.holds = []) :
+    delTo n s d o (run (fuel + 1) c ops).2 = due c n s d o := by
+  have q0 : Quiet c := ⟨hs, hd⟩
+  have h0 : St n s d o c false c [] [] := by
+    unfold St
+    exact ⟨by simpa [cntL] using hq, rfl⟩
+  obtain ⟨_, h1⟩ := run_St_once n s d o fuel c q0 hsl ops c [] hops hone (Frame.refl c) h0
+  exact St_final n s d o (by simpa using h1) hfin
+
+/-- The same histories with `(n, s, d)` posted SEVERAL times: equal pending copies coalesce, so the
+number of deliveries is bounded rather than determined - but it is never zero and never more than
+the number of posts, and every time `o` is served it is served in full: the log filtered to `o`
+and `(n, s, d)` is `j` repetitions of `due`, with `1 ≤ j ≤` the number of posts. -/
+theorem repeated_posts_deliver_between_once_and_each (fuel : Nat) (c : Center) (ops : List Op) (n : Name) (s : Obj)
+    (d : Data) (o : Obj) (hs : c.scripts = []) (hd : c.disabled = []) (hq : pend c n s d o = 0) (hsl : s ∉ c.dead)
+    (hops : ∀ op ∈ ops, isHoldOrPost op = true) (hposted : 1 ≤ postsOf n s d ops)
+    (hfin : (run (fuel + 1) c ops).1.holds = []) :
+    ∃ j, 1 ≤ j ∧ j ≤ postsOf n s d ops ∧
+      delTo n s d o (run (fuel + 1) c ops).2 = (List.replicate j (due c n s d o)).flatten := by
+  have q0 : Quiet c := ⟨hs, hd⟩
+  have h0 : Gd n s d o c 0 c [] [] := ⟨0, rfl, by simp [hq, cntL], fun h => absurd h (by omega)⟩
+  obtain ⟨_, j, h1, h2, h3⟩ := run_Gd n s d o fuel c q0 hsl ops 0 c [] hops (Frame.refl c) h0
+  have hp : pend (run (fuel + 1) c ops).1 n s d o = 0 := by rw [pend_eq, hfin]; rfl
+  have hz : cntL n s d o [] = 0 := rfl
+  rw [hp, hz] at h2 h3
+  refine ⟨j, by have := h3 (by omega); omega, by omega, ?_⟩
+  simpa [batches] using h1
+
+/-- The same, started in the middle: when exactly one copy of `(n, s, d)` is pending for `o` (in
+whichever queue, restricted to `o` or not), then whatever holds are requested and released and
+whatever else is posted afterwards, in whatever order: once no hold is left, `o` has received it
+exactly once per matching registration.  (Induction over the release order.) -/
+theorem pending_copy_is_delivered_once (fuel : Nat) (c : Center) (ops : List Op) (n : Name) (s : Obj) (d : Data)
+    (o : Obj) (hs : c.scripts = []) (hd : c.disabled = []) (hq : pend c n s d o = 1) (hsl : s ∉ c.dead)
+    (hops : ∀ op ∈ ops, isHoldOrPost op = true) (hnone : postsOf n s d ops = 0)
+    (hfin : (run (fuel + 1) c ops).1.holds = []) :
+    delTo n s d o (run (fuel + 1) c ops).2 = due c n s d o := by
+  have q0 : Quiet c := ⟨hs, hd⟩
+  have h0 : St n s d o c true c [] [] := by
+    unfold St
+    left
+    exact ⟨by simpa [cntL] using hq, rfl⟩
+  obtain ⟨_, h1⟩ := run_St_quietly n s d o fuel c q0 hsl true ops c [] hops hnone (Frame.refl c) h0
+  exact St_final n s d o (by simpa using h1) hfin
+
+/-- Equal notifications destined for DIFFERENT observers do not coalesce: queued one after the
+other into the same hold, both are kept, in first-post order; and if they are the only pending
+copies, each of the two observers receives the notification exactly once per registration when
+the holds have all ended - whatever narrow and wide holds are opened and closed in between, in
+whatever order. -/
+theorem restricted_entries_do_not_coalesce_across_observers (c : Center) (hk : HKey) (h : Hold)
+    (n : Name) (s : Obj) (d : Data) (o1 o2 : Obj) (hne : o1 ≠ o2)
+    (hg : AL.get? c.holds hk = some h)
+    (h1 : (⟨n, s, d, some o1⟩ : Note) ∉ h.queue) (h2 : (⟨n, s, d, some o2⟩ : Note) ∉ h.queue) :
+    AL.get? (enqueue (enqueue c hk ⟨n, s, d, some o1⟩) hk ⟨n, s, d, some o2⟩).holds hk =
+      some { h with queue := h.queue ++ [⟨n, s, d, some o1⟩, ⟨n, s, d, some o2⟩] } ∧
+    ∀ (fuel : Nat) (ops : List Op), c.scripts = [] → c.disabled = [] → s ∉ c.dead →
+      pend c n s d o1 = 0 → pend c n s d o2 = 0 →
+      (∀ op ∈ ops, isHoldOrPost op = true) → postsOf n s d ops = 0 →
+      (run (fuel + 1) (enqueue (enqueue c hk ⟨n, s, d, some o1⟩) hk ⟨n, s, d, some o2⟩) ops).1.holds = [] →
+      delTo n s d o1 (run (fuel + 1) (enqueue (enqueue c hk ⟨n, s, d, some o1⟩) hk ⟨n, s, d, some o2⟩) ops).2
+        = due c n s d o1 ∧
+      delTo n s d o2 (run (fuel + 1) (enqueue (enqueue c hk ⟨n, s, d, some o1⟩) hk ⟨n, s, d, some o2⟩) ops).2
+        = due c n s d o2 := by
+  have hg1 : AL.get? (enqueue c hk ⟨n, s, d, some o1⟩).holds hk =
+      some { h with queue := h.queue ++ [⟨n, s, d, some o1⟩] } := get?_enqueue_fresh hg h1
+  have h2' : (⟨n, s, d, some o2⟩ : Note) ∉ h.queue ++ [⟨n, s, d, some o1⟩] := by
+    simp only [List.mem_append, List.mem_singleton, Note.mk.injEq, Option.some.injEq, true_and, not_or]
+    exact ⟨h2, fun e => hne e.symm⟩
+  refine ⟨?_, ?_⟩
+  · rw [get?_enqueue_fresh hg1 h2']
+    simp
+  · intro fuel ops hs hd hsl hp1 hp2 hops hnone hfin
+    have hsh : SameShape c (enqueue (enqueue c hk ⟨n, s, d, some o1⟩) hk ⟨n, s, d, some o2⟩) :=
+      (sameShape_enqueue _ _ _).trans (sameShape_enqueue _ _ _)
+    have hfor11 : Note.isFor n s d o1 ⟨n, s, d, some o1⟩ = true := by simp [Note.isFor]
+    have hfor22 : Note.isFor n s d o2 ⟨n, s, d, some o2⟩ = true := by simp [Note.isFor]
+    have hfor12 : Note.isFor n s d o1 ⟨n, s, d, some o2⟩ = false := by
+      simp [Note.isFor]; exact fun e => hne e.symm
+    have hfor21 : Note.isFor n s d o2 ⟨n, s, d, some o1⟩ = false := by
+      simp [Note.isFor]; exact hne
+    have hq1 : pend (enqueue (enqueue c hk ⟨n, s, d, some o1⟩) hk ⟨n, s, d, some o2⟩) n s d o1 = 1 := by
+      rw [pend_enqueue_notFor n s d o1 _ _ _ hfor12, pend_enqueue_fresh n s d o1 hg h1, hp1, hfor11]; rfl
+    have hq2 : pend (enqueue (enqueue c hk ⟨n, s, d, some o1⟩) hk ⟨n, s, d, some o2⟩) n s d o2 = 1 := by
+      rw [pend_enqueue_fresh n s d o2 hg1 h2', pend_enqueue_notFor n s d o2 _ _ _ hfor21, hp2, hfor22]; rfl
+    have hs' := hsh.scripts.trans hs
+    have hd' := hsh.disabled.trans hd
+    have hsl' : s ∉ (enqueue (enqueue c hk ⟨n, s, d, some o1⟩) hk ⟨n, s, d, some o2⟩).dead := by
+      rw [hsh.dead]; exact hsl
+    refine ⟨?_, ?_⟩
+    · rw [pending_copy_is_delivered_once fuel _ ops n s d o1 hs' hd' hq1 hsl' hops hnone hfin]
+      exact hsh.frame.due n s d o1
+    · rw [pending_copy_is_delivered_once fuel _ ops n s d o2 hs' hd' hq2 hsl' hops hnone hfin]
+      exact hsh.frame.due n s d o2
+
+/-- A copy restricted to observer `o` (what a hold scoped to `o` queued, at whatever later release it
+is posted again) reaches `o` only: every event of its post is a delivery to `o`, and for every
+other observer neither the pending copies nor the deliveries change - also when a wider hold
+catches it again (then it is queued with its addressee kept, see `hold_queues`). -/
+theorem restricted_entry_reaches_only_its_observer (rec : Center → Op → Center × List Ev) (c : Center)
+    (n : Name) (s : Obj) (d : Data) (o : Obj) (hs : c.scripts = []) :
+    (∀ ev ∈ (post rec c n s d (some o)).2, ∃ m, ev = .deliver o m n s d) ∧
+    (c.disabled = [] → ∀ o', o' ≠ o →
+      pend (post rec c n s d (some o)).1 n s d o' = pend c n s d o' ∧
+      delTo n s d o' (post rec c n s d (some o)).2 = []) := by
+  refine ⟨?_, ?_⟩
+  · by_cases hdis : isDisabled c (senderKeys n s) = true
+    · rw [disable_drops rec c n s d _ hdis]; simp
+    · have hdis' : isDisabled c (senderKeys n s) = false := by simpa using hdis
+      cases hh : firstHold c (senderKeys n s) with
+      | some hk => rw [hold_queues rec c n s d _ hk hdis' hh]; simp
+      | none =>
+        rw [(post_exact rec c n s d (some o) hs hdis' hh).1]
+        intro ev hev
+        simp only [List.mem_map, List.mem_filter] at hev
+        obtain ⟨r, ⟨_, hdl⟩, rfl⟩ := hev
+        unfold deliverable at hdl
+        simp only [Option.isNone_some, Bool.false_or, Bool.and_eq_true, beq_iff_eq, Option.some.injEq] at hdl
+        exact ⟨r.meth, by rw [deliverEv, ← hdl.1.1.1]⟩
+  · intro hd o' hne
+    exact post_irrelevant rec n s d o' n s d (some o) ⟨hs, hd⟩
+      (Or.inr ⟨rfl, fun e => hne (Option.some.inj e).symm⟩)
+
+/-- First-post order, for one hold: when the last hold in force ends (nothing else suspended,
+callbacks passive) its queue is delivered entry by entry in queue order - the order of the first
+posts - each entry to the live matching registrations it is meant for, in registration order; an
+entry whose sender has died is skipped and the entries behind it still go out. -/
+theorem release_delivers_in_queue_order (rec : Center → Op → Center × List Ev) (c : Center) (hk : HKey)
+    (h : Hold) (hh : c.holds = [(hk, h)]) (hc : h.count = 1) (hd : c.disabled = []) (hs : c.scripts = []) :
+    (release rec c hk).2 =
+      h.queue.flatMap (fun x => if x.sender ∈ c.dead then [] else
+        (plainTargets c x).map (deliverEv x.name x.sender x.data)) ++ [.ret .ok] := by
+  have hg : AL.get? c.holds hk = some h := by simp [hh]
+  rw [release_last_eq rec hg (by omega)]
+  have he : AL.erase c.holds hk = [] := by simp [hh, AL.erase]
+  have q1 : Quiet { c with holds := AL.erase c.holds hk } := ⟨hs, hd⟩
+  rw [runAll_repost_noholds rec _ q1 he]
+  rfl
+
+/-! ## 9. `None` as an argument: a key for has / add / remove, a wildcard for find -/
+
+/-- `hasObserver(observer, None, observable)` asks for the catch-all registration itself: it is
+true exactly when the observer is registered under the key `(None, observable)`; registering it
+for a name changes nothing to that, and removing the catch-all registration leaves the
+registrations for names alone. -/
+theorem has_none_is_a_key (c : Center) (hi : Inv c) (o : Obj) (s : Option Obj) :
+    (hasReg c (none, s) o = true ↔ ∃ r ∈ regsAt c (none, s), r.observer = o) ∧
+    (∀ (n : Name) (m : Meth) (i : Option String) (o' : Obj),
+      hasReg (add c o m (some n, s) i).1 (none, s) o' = hasReg c (none, s) o') ∧
+    (∀ (n : Name) (o' : Obj),
+      hasReg (removeKey c o (none, s)) (some n, s) o' = hasReg c (some n, s) o') := by
+  refine ⟨has_exact c (none, s) o, ?_, ?_⟩
+  · intro n m i o'
+    by_cases hno : hasReg c (some n, s) o = true
+    · rw [add_dup hno]
+    · have hno' : hasReg c (some n, s) o = false := by simpa using hno
+      unfold hasReg
+      rw [regsAt_add_ok hno' (none, s)]
+      simp
+  · intro n o'
+    unfold hasReg
+    rw [regsAt_removeKey hi o (none, s) (some n, s)]
+    simp
+
+/-- `findObservations(notification=None)` does not ask for the catch-all registrations: it places no
+condition on the name.  It reports every registration whose sender, observer and identifier
+match, whatever it was registered for; so it contains the answer for every given name (whose
+records all carry that name), and the catch-all registrations besides. -/
+theorem find_none_is_a_wildcard (c : Center) (o : Option Obj) (s : Option Obj) (pat : Option String) (f : Found) :
+    (f ∈ findObs c o none s pat ↔
+      ∃ kr ∈ c.registry, ∃ r ∈ kr.2,
+        (s = none ∨ kr.1.2 = s) ∧ identOk pat r.ident = true ∧ obsOk o r.observer = true ∧
+        f = ⟨liveRef c r.observer, liveRef? c kr.1.2, kr.1.1, r.ident⟩) ∧
+    (∀ n : Name, f ∈ findObs c o (some n) s pat → f ∈ findObs c o none s pat ∧ f.notification = some n) := by
+  refine ⟨?_, ?_⟩
+  · rw [find_exact]
+    constructor
+    · rintro ⟨kr, hkr, r, hr, hk, h1, h2, h3⟩
+      exact ⟨kr, hkr, r, hr, by simpa using ((keyOk_iff none s kr.1).mp hk).2, h1, h2, h3⟩
+    · rintro ⟨kr, hkr, r, hr, hk, h1, h2, h3⟩
+      exact ⟨kr, hkr, r, hr, (keyOk_iff none s kr.1).mpr ⟨Or.inl rfl, hk⟩, h1, h2, h3⟩
+  · intro n hf
+    rw [find_exact] at hf ⊢
+    obtain ⟨kr, hkr, r, hr, hk, h1, h2, h3⟩ := hf
+    have hk' := (keyOk_iff (some n) s kr.1).mp hk
+    refine ⟨⟨kr, hkr, r, hr, (keyOk_iff none s kr.1).mpr ⟨Or.inl rfl, hk'.2⟩, h1, h2, h3⟩, ?_⟩
+    rw [h3]
+    rcases hk'.1 with e | e
+    · exact absurd e (by simp)
+    · exact e
+
+/-! ## 10. Identifier patterns: `fnmatch.fnmatchcase`, bracket expressions included -/
+
+/-- The matcher of the model decides exactly the declarative reading of the pattern: the
+identifier is a concatenation of one piece per token - the character itself for a literal, any one
+character for `?`, one character inside (outside) the listed ranges for `[seq]` (`[!seq]`), any
+string for `*`. -/
+theorem glob_matches_spec (p s : List Char) : glob p s = true ↔ Matches (tokenize p) s :=
+  globT_iff (tokenize p) s
+
+/-- a `[` that is never closed stands for itself, and the scan resumes right after it -/
+theorem unclosed_bracket_is_literal (p : List Char) (h : ']' ∉ p) :
+    tokenize ('[' :: p) = .lit '[' :: tokenize p := by
+  have hsplit : splitSet p = none := by
+    unfold splitSet
+    have hsub : ∀ x ∈ (leadClose (dropBang p).2).2, x ∈ p := by
+      intro x hx
+      have h1 : ∀ (l : List Char), ∀ y ∈ (dropBang l).2, y ∈ l := by
+        intro l y hy
+        unfold dropBang at hy
+        split at hy
+        · simp only at hy; simp [hy]
+        · exact hy
+      have h2 : ∀ (l : List Char), ∀ y ∈ (leadClose l).2, y ∈ l := by
+        intro l y hy
+        unfold leadClose at hy
+        split at hy
+        · simp only at hy; simp [hy]
+        · exact hy
+      exact h1 p x (h2 _ x hx)
+    have : untilClose (leadClose (dropBang p).2).2 = none := by
+      rw [untilClose_none_iff]
+      intro hm; exact h (hsub _ hm)
+    rw [this]
+  unfold tokenize
+  simp only [List.length_cons]
+  exact tokenizeF_open_unclosed _ p hsplit
+
+/-! ## 11. Objects that die while something is pending -/
+
+/-- A queued notification whose SENDER has died is dropped at release - no event, no change - and
+the entries behind it are re-posted as if it had never been there (callbacks passive). -/
+theorem dead_sender_entries_are_dropped (rec : Center → Op → Center × List Ev) (c : Center) (hs : c.scripts = [])
+    (queue : List Note) :
+    (∀ q : Note, q.sender ∈ c.dead → repost rec c q = (c, [])) ∧
+    runAll (repost rec) c queue = runAll (repost rec) c (queue.filter (fun q => q.sender ∉ c.dead)) := by
+  refine ⟨fun q hq => by simp [repost, hq], ?_⟩
+  have key : ∀ c', SameShape c c' →
+      runAll (repost rec) c' queue = runAll (repost rec) c' (queue.filter (fun q => q.sender ∉ c.dead)) := by
+    induction queue with
+    | nil => intro c' _; rfl
+    | cons q qs ih =>
+      intro c' hsh
+      by_cases hq : q.sender ∈ c.dead
+      · have hq' : q.sender ∈ c'.dead := by rw [hsh.dead]; exact hq
+        have : repost rec c' q = (c', []) := by simp [repost, hq']
+        rw [runAll_cons, this]
+        simp only [List.nil_append]
+        rw [List.filter_cons_of_neg (by simpa using hq)]
+        exact ih c' hsh
+      · rw [List.filter_cons_of_pos (by simpa using hq), runAll_cons, runAll_cons]
+        have hsh' := hsh.trans (repost_sameShape_noscript rec c' (hsh.scripts.trans hs) q)
+        rw [ih _ hsh']
+  exact key c (SameShape.refl c)
+
+/-- A pending copy restricted to an OBSERVER that has died meanwhile produces no delivery at all
+when it is posted again (whatever else is suspended; callbacks passive). -/
+theorem dead_observer_entry_vanishes (rec : Center → Op → Center × List Ev) (c : Center) (n : Name) (s : Obj)
+    (d : Data) (o : Obj) (hs : c.scripts = []) (hdead : o ∈ c.dead) :
+    (post rec c n s d (some o)).2 = [] := by
+  have := (restricted_entry_reaches_only_its_observer rec c n s d o hs).1
+  by_cases hdis : isDisabled c (senderKeys n s) = true
+  · rw [disable_drops rec c n s d _ hdis]
+  · have hdis' : isDisabled c (senderKeys n s) = false := by simpa using hdis
+    cases hh : firstHold c (senderKeys n s) with
+    | some hk => rw [hold_queues rec c n s d _ hk hdis' hh]
+    | none =>
+      rw [(post_exact rec c n s d (some o) hs hdis' hh).1]
+      have : (matching c n s).filter (deliverable c n s (some o)) = [] := by
+        rw [List.filter_eq_nil_iff]
+        intro r _
+        unfold deliverable
+        by_cases e : r.observer = o
+        · simp [e, hdead]
+        · have : ¬ o = r.observer := fun x => e x.symm
+          simp [this]
+      rw [this]; rfl
+
 /-! ## 7. Non-vacuity: concrete states meeting the hypotheses, and the laws in action -/
 
 def demo : Center := (run 8 {} [.add 10 1 (some 1) (some 2) (some "a.b"), .add 11 1 none none none,
@@ -393,5 +690,103 @@ example : (run 8 demo [.hold (some 1) none none none, .hold (some 1) none none n
      .deliver 11 1 1 2 7, .ret .ok, .deliver 10 2 1 3 0, .deliver 12 2 1 3 0, .ret .ok,
      .deliver 10 2 1 2 7, .deliver 12 2 1 2 7, .deliver 10 1 1 2 7, .ret .ok,
      .deliver 10 2 1 2 1, .deliver 12 2 1 2 1, .deliver 10 1 1 2 1, .ret .ok] := by decide
+
+
+/-! ### non-vacuity of sections 8 - 11 -/
+
+/-- a hold scoped to observer 10 and a hold on everything, opened narrow first and closed narrow
+first: what the narrow hold queued for 10 moves into the wide queue, behind what was posted later -/
+def overlapOps : List Op :=
+  [.hold none none (some 10) none, .post 1 2 7 none, .hold none none none none, .post 1 2 5 none,
+   .release none none (some 10), .release none none none]
+
+example : demo.scripts = [] ∧ demo.disabled = [] ∧ pend demo 1 2 7 10 = 0 ∧ 2 ∉ demo.dead ∧
+    (∀ op ∈ overlapOps, isHoldOrPost op = true) ∧ postsOf 1 2 7 overlapOps = 1 ∧
+    (run 8 demo overlapOps).1.holds = [] := by decide
+example : delTo 1 2 7 10 (run 8 demo overlapOps).2 = [.deliver 10 2 1 2 7, .deliver 10 1 1 2 7] ∧
+    due demo 1 2 7 10 = [.deliver 10 2 1 2 7, .deliver 10 1 1 2 7] := by decide
+/-- ... and the order in which ONE observer receives two notifications that went through different
+holds is the order in which they entered the last queue, not the order of their first posts:
+observer 10 gets `(1, 2, 5)` before `(1, 2, 7)`.  The property speaks of first-post order per hold. -/
+example : (run 8 demo overlapOps).2 =
+    [.ret .ok, .deliver 11 1 1 2 7, .deliver 12 2 1 2 7, .ret .ok, .ret .ok, .ret .ok, .ret .ok,
+     .deliver 11 1 1 2 5, .deliver 10 2 1 2 5, .deliver 12 2 1 2 5, .deliver 10 1 1 2 5,
+     .deliver 10 2 1 2 7, .deliver 10 1 1 2 7, .ret .ok] := by decide
+
+/-- `(1, 2, 7)` posted three times - twice while observer 10 is held (they coalesce), once after -/
+def repeatOps : List Op :=
+  [.hold none none (some 10) none, .post 1 2 7 none, .post 1 2 7 none, .release none none (some 10), .post 1 2 7 none]
+example : pend demo 1 2 7 10 = 0 ∧ (∀ op ∈ repeatOps, isHoldOrPost op = true) ∧ postsOf 1 2 7 repeatOps = 3 ∧
+    (run 8 demo repeatOps).1.holds = [] ∧
+    delTo 1 2 7 10 (run 8 demo repeatOps).2 = (List.replicate 2 (due demo 1 2 7 10)).flatten ∧
+    delTo 1 2 7 11 (run 8 demo repeatOps).2 = (List.replicate 3 (due demo 1 2 7 11)).flatten := by decide
+
+/-- one pending copy, restricted to 12, sitting in the queue of a hold on everything -/
+def demoPending : Center :=
+  (run 8 demo [.hold none none (some 12) none, .post 1 2 7 none, .hold none none none none,
+               .release none none (some 12)]).1
+example : demoPending.holds = [((none, none, none), ⟨1, [⟨1, 2, 7, some 12⟩], []⟩)] ∧
+    pend demoPending 1 2 7 12 = 1 ∧ pend demoPending 1 2 7 10 = 0 := by decide
+/-- a narrower hold is opened before the wide one ends: the copy moves once more, then arrives -/
+def pendingOps : List Op := [.hold (some 1) none none none, .release none none none, .release (some 1) none none]
+example : demoPending.scripts = [] ∧ demoPending.disabled = [] ∧ 2 ∉ demoPending.dead ∧
+    (∀ op ∈ pendingOps, isHoldOrPost op = true) ∧ postsOf 1 2 7 pendingOps = 0 ∧
+    (run 8 demoPending pendingOps).1.holds = [] := by decide
+example : delTo 1 2 7 12 (run 8 demoPending pendingOps).2 = [.deliver 12 2 1 2 7] ∧
+    due demoPending 1 2 7 12 = [.deliver 12 2 1 2 7] := by decide
+
+/-- two equal notifications for two observers in one queue -/
+def demoHeld : Center := (run 8 demo [.hold none none none none]).1
+example : AL.get? demoHeld.holds (none, none, none) = some ⟨1, [], []⟩ ∧ (10 : Obj) ≠ 12 ∧
+    pend demoHeld 1 2 7 10 = 0 ∧ pend demoHeld 1 2 7 12 = 0 := by decide
+example : (run 8 (enqueue (enqueue demoHeld (none, none, none) ⟨1, 2, 7, some 10⟩) (none, none, none)
+    ⟨1, 2, 7, some 12⟩) [.release none none none]).2 =
+    [.deliver 10 2 1 2 7, .deliver 10 1 1 2 7, .deliver 12 2 1 2 7, .ret .ok] := by decide
+
+/-- a restricted copy is served to its observer only -/
+example : (post noRec demo 1 2 7 (some 10)).2 = [.deliver 10 2 1 2 7, .deliver 10 1 1 2 7] := by decide
+
+/-- one hold, two queued notifications: delivered in queue order -/
+def demoQueue : Center := (run 8 demo [.hold none none none none, .post 1 3 1 none, .post 1 2 7 none]).1
+example : demoQueue.holds = [((none, none, none), ⟨1, [⟨1, 3, 1, none⟩, ⟨1, 2, 7, none⟩], []⟩)] ∧
+    demoQueue.disabled = [] ∧ demoQueue.scripts = [] := by decide
+example : (release noRec demoQueue (none, none, none)).2 =
+    [.deliver 11 1 1 3 1, .deliver 10 2 1 3 1, .deliver 12 2 1 3 1,
+     .deliver 11 1 1 2 7, .deliver 10 2 1 2 7, .deliver 12 2 1 2 7, .deliver 10 1 1 2 7, .ret .ok] := by decide
+
+/-- `None` is a key for has (10 is registered for everything from everybody, and for name 1 of sender
+2, but not for everything from sender 2) and a wildcard for find -/
+example : Inv demo ∧ hasReg demo (none, none) 10 = true ∧ hasReg demo (some 1, some 2) 10 = true ∧
+    hasReg demo (none, some 2) 10 = false := ⟨inv_reachable 8 _, by decide⟩
+example : (findObs demo (some 10) none none none).length = 2 ∧
+    (findObs demo (some 10) (some 1) none none).length = 1 ∧
+    (findObs demo (some 10) none (some 2) none).length = 1 := by decide
+
+/-- bracket expressions as `fnmatch.translate` reads them -/
+example : glob ['a', '.', '[', 'b', '-', 'c', ']'] ['a', '.', 'c'] = true ∧
+    glob ['a', '.', '[', '!', 'b', '-', 'c', ']'] ['a', '.', 'c'] = false ∧
+    glob ['[', ']', 'a', ']', '*'] [']', 'x'] = true ∧
+    glob ['[', '!', ']'] ['[', '!', ']'] = true ∧
+    glob ['[', 'z', '-', 'a', ']'] ['z'] = false ∧
+    glob ['[', '!', 'z', '-', 'a', ']'] ['q'] = true ∧
+    glob ['[', 'a', '-', ']'] ['-'] = true ∧
+    glob ['[', '^', 'a', ']'] ['^'] = true := by decide
+/-- the `!` is looked for after the empty ranges have been dropped: `[b--!x]` reads `[!x]` -/
+example : tokenize ['[', 'b', '-', '-', '!', 'x', ']'] = [.set true [('x', 'x')]] ∧
+    glob ['[', 'b', '-', '-', '!', 'x', ']'] ['a'] = true ∧
+    glob ['[', 'b', '-', '-', '!', 'x', ']'] ['x'] = false := by decide
+example : ']' ∉ ['a', '!'] ∧ tokenize ['[', 'a', '!'] = [.lit '[', .lit 'a', .lit '!'] := by decide
+example : Matches (tokenize ['a', '*', '[', 'x', 'y', ']']) ['a', 'b', 'c', 'y'] :=
+  (glob_matches_spec _ _).mp (by decide)
+
+/-- sender 3 dies while its notification waits in a queue: it is dropped, what was queued behind it
+is delivered -/
+example : (run 8 demo [.hold none none none none, .post 1 3 1 none, .post 1 2 7 none, .kill 3,
+    .release none none none]).2 =
+    [.ret .ok, .ret .ok, .ret .ok, .ret .ok,
+     .deliver 11 1 1 2 7, .deliver 10 2 1 2 7, .deliver 12 2 1 2 7, .deliver 10 1 1 2 7, .ret .ok] := by decide
+/-- observer 12 dies while a copy restricted to it waits in the wide queue it was re-posted into -/
+example : (run 8 demoPending [.kill 12, .release none none none]).2 = [.ret .ok, .ret .ok] ∧
+    (run 8 demoPending [.release none none none]).2 = [.deliver 12 2 1 2 7, .ret .ok] := by decide
 
 end DefconModel.Props.C04
